@@ -179,6 +179,16 @@ def run_property(chk, pid):
             h = run_history(n, edges, [e for e in edges if rnd.random() < 0.2], rnd) if n <= 40 else None
             if h is not None:
                 recs.append(dict(n=h[1], edges=[list(e) for e in h[2]], idom=h[3], num=h[4], full=h[1] <= 5, src="numbered-again-after-" + h[0]))
+    # deep graphs (the depth-first searches are recursive): ladders of 1500 (and 3000) nodes, judged by their closed forms
+    for n in ([1500] if quick else [1500, 3000]):
+        edges = [(k, k + 1) for k in range(1, n)] + [(k, n) for k in range(1, n - 1)]
+        try:
+            idom, num = run_graph(n, edges)
+        except RecursionError:
+            idom, num = [0] * n, [0] * n
+        recs.append(dict(n=n, edges=[], idom=idom, num=num, full=False, deep=True, src="ladder"))
+    for r_ in recs:
+        r_.setdefault("deep", False)
     res = tlc.validate("Dominators_Trace", "Dominators_Trace.cfg", recs, shards=16, heap="3g", timeout=6000)
     chk.trace_result(res, "Dominators_Trace")
     chk.c2s -= res["accepted"]
@@ -199,6 +209,7 @@ def run_property(chk, pid):
         k = next((i for i in range(len(recs)) if i not in rejected and recs[i]["n"] == 3 and len(recs[i]["edges"]) >= 3), None)
     if k is not None:
         bad = dict(recs[k])
+        bad.setdefault("deep", False)
         if pid == "C18":
             bad["idom"] = [0] + [1 + (x % bad["n"]) for x in bad["idom"][1:]]
         else:
